@@ -25,6 +25,8 @@ import Vita.C09.LemmasSniff
 import Vita.C09.LemmasTable
 import Vita.C09.LemmasXrff
 import Vita.C09.LemmasCat
+import Vita.C09.LemmasHist
+import Vita.C09.LemmasSniffQ
 
 namespace Vita.C09
 
@@ -758,6 +760,33 @@ theorem sniffed_read_eq_explicit (cfg : Cfg) (o : NumOracle F) (d : Char) (hdr :
   unfold readCsv resolveDialect
   simp [hp.1, hp.2, hs, hd0]
 
+/-- **sniff_agrees_quoted.**  `sniff_agrees` for tables written WITH quoting – the class `UnambiguousQ`
+    (LemmasSniffQ.lean): as `Unambiguous`, and any cell may be written between quotes (every cell, only the
+    numbers, only the names, any mixture; numbers of any widths; names in lower case, Capitalised, UPPER
+    case) provided that a name as the header pass sees it – with its quotes, if quoted – is not a number
+    (so `"1980"` is a name, `1980` is not) and that, when there is no header line, the cells of the first row are
+    not quoted: the sniffer finds the delimiter and says whether there is a header line. -/
+theorem sniff_agrees_quoted (o : NumOracle F) (n : Nat) (hn : 1 ≤ n) (d : Char) (hdr : Option (List (Str × Bool)))
+    (rows : List (List (Str × Bool))) (h : UnambiguousQ o d hdr rows) :
+    sniffer o n (splitLines (renderQ d (hdr.toList ++ rows))) = (d, hdr.isSome) :=
+  sniffer_unambiguousQ o n hn d hdr rows h
+
+/-- consequently, on an unambiguous table every one of the four ways of giving the dialect – delimiter explicit
+    or left to the sniffer × `header()` / `no_header()` or left to the sniffer – is the same import, into a
+    dataframe in any state -/
+theorem sniffed_read_eq_explicit_quoted (cfg : Cfg) (o : NumOracle F) (d : Char) (hdr : Option (List (Str × Bool)))
+    (rows : List (List (Str × Bool))) (h : UnambiguousQ o d hdr rows) (p : Params) (prior : DF F)
+    (hn : 1 ≤ cfg.sniffLines)
+    (hpd : p.delim = '\x00' ∨ p.delim = d) (hph : p.header = none ∨ p.header = some hdr.isSome) :
+    readCsvFrom cfg o p prior (renderQ d (hdr.toList ++ rows)) =
+    readCsvFrom cfg o { p with delim := d, header := some hdr.isSome } prior (renderQ d (hdr.toList ++ rows)) := by
+  have hs := sniffer_unambiguousQ o cfg.sniffLines hn d hdr rows h
+  have hd0 : d ≠ '\x00' := by
+    have := h.delim
+    intro hd; subst hd; simp [preferred] at this
+  unfold readCsvFrom resolveDialect
+  rcases hpd with hpd | hpd <;> rcases hph with hph | hph <;> simp [hpd, hph, hs, hd0]
+
 /-- **explicit_wins.**  For every file and every parameter setting: an explicit delimiter and an
     explicit `header()` / `no_header()` are the ones `read_csv` uses, whatever the sniffer thinks of
     the file and whether or not it runs for the other setting; the sniffer's values are used only for
@@ -800,6 +829,255 @@ theorem explicit_header_sniffed_delimiter (cfg : Cfg) (o : NumOracle F) (d : Cha
   have hd0 : d ≠ '\x00' := (preferred_facts d hd).1
   rw [explicit_header_wins cfg o p b _ hp.2, explicit_header_wins cfg o { p with delim := d } b _ hp.2]
   simp [hp.1, hg, hd0]
+
+/-! ## 5b. histories: several imports into one dataframe object -/
+
+/-- **read_fresh.**  The readers that take the prior state of the object (History.lean) are, on a freshly
+    constructed `dataframe`, the readers all the theorems above speak about: the first import of a history
+    is an import into a new object. -/
+theorem read_fresh (cfg : Cfg) (o : NumOracle F) (p : Params) (ext bytes : Str) (doc : XDoc) :
+    readCsvFrom cfg o p ({} : DF F) bytes = readCsv cfg o p bytes ∧
+    readXrffHFrom cfg o p.hook ({} : DF F) doc = readXrffH cfg o p.hook doc ∧
+    readFileFrom cfg o p ({} : DF F) ext bytes doc = readFile cfg o p ext bytes doc := by
+  refine ⟨readCsvFrom_fresh cfg o p bytes, readXrffHFrom_fresh cfg o p.hook doc, ?_⟩
+  simp only [readFileFrom, readFile, readCsvFrom_fresh, readXrffHFrom_fresh]
+
+/-- **rows_faithful_append.**  `read_csv` into a dataframe that already has its columns and possibly a
+    class map and examples (the state `prior` left by ANY earlier calls), for a well-formed table whose rows
+    fit the schema the object has (`TypedFrom`: the cells convert under the domains of the existing columns,
+    a column without a domain sees blank cells only, labels / numbers go with the class map), read with
+    the explicit dialect, with or without header line (code after the fix): the import succeeds and the
+    object then holds exactly the data rows of THIS table – one example per row, in order; the examples of
+    earlier imports are gone and the header line is never an example –, inputs = the values of the
+    non-output cells in their order, output = the number / the class id; the class map is the old one
+    continued (every label seen before keeps its id, new labels get the next ids, names recoverable); names
+    and domains of the columns are unchanged.  The resulting state meets the hypotheses on `prior` again. -/
+theorem rows_faithful_append (cfg : Cfg) (hg : cfg.guards = true) (o : NumOracle F) (d : Char) (eol : Str)
+    (t : Table) (p : Params) (prior : DF F)
+    (hd : p.delim = d) (hh : p.header = some t.header.isSome) (hf : p.hook = some)
+    (hwf : WellFormed d eol t) (hk : ∀ k, p.outIdx = some k → k < t.row0.length)
+    (hcols : prior.cols ≠ []) (hvc : VoidClean prior.cols) (hinv : ClassInv prior.classes)
+    (hty : TypedFrom o p.outIdx p.trimWs p.keepQuotes (prior.cols.map (·.dom)) prior.classes t) :
+    ∃ df, readCsvFrom cfg o p prior (t.render d eol) = .ok df ∧
+      df.examples.length = t.rows.length ∧
+      (∀ pr ∈ t.rows.zip df.examples,
+        pr.2.input = inputVals o (prior.cols.map (·.dom)).tail
+                       (prep p.outIdx (fieldsOf p.trimWs p.keepQuotes pr.1)).tail) ∧
+      (Regr o (prior.cols.map (·.dom)) (t.rows.map (fun r => prep p.outIdx (fieldsOf p.trimWs p.keepQuotes r))) →
+        ∀ pr ∈ t.rows.zip df.examples,
+          pr.2.output = if outDom (prior.cols.map (·.dom)) = .void then .void
+            else cellVal o (outDom (prior.cols.map (·.dom)))
+                   ((prep p.outIdx (fieldsOf p.trimWs p.keepQuotes pr.1)).headD [])) ∧
+      (Classif o (prior.cols.map (·.dom)) (t.rows.map (fun r => prep p.outIdx (fieldsOf p.trimWs p.keepQuotes r))) →
+        ∀ pr ∈ t.rows.zip df.examples, ∃ id : Nat,
+          pr.2.output = .int id ∧
+          lookup df.classes (trim ((prep p.outIdx (fieldsOf p.trimWs p.keepQuotes pr.1)).headD [])) = some id ∧
+          className df.classes id = trim ((prep p.outIdx (fieldsOf p.trimWs p.keepQuotes pr.1)).headD [])) ∧
+      Extends prior.classes df.classes ∧
+      (∀ l i, lookup prior.classes l = some i → lookup df.classes l = some i ∧ className df.classes i = l) ∧
+      skel df.cols = skel prior.cols ∧ VoidClean df.cols ∧ ClassInv df.classes := by
+  have hd0 : p.delim ≠ '\x00' := by rw [hd]; exact hwf.d0
+  have hrecs := records_of_table d eol t p.trimWs p.keepQuotes p.hook hwf
+  have hlines : (t.lines.map (fieldsOf p.trimWs p.keepQuotes)).filterMap p.hook =
+      (t.header.map (fieldsOf p.trimWs p.keepQuotes)).toList ++ t.rows.map (fieldsOf p.trimWs p.keepQuotes) := by
+    rw [hf]
+    cases hh' : t.header <;> simp [Table.lines, hh']
+  have hflen : ∀ l, (fieldsOf p.trimWs p.keepQuotes l).length = l.length := fieldsOf_length _ _
+  have hrows' : (t.rows.map (fieldsOf p.trimWs p.keepQuotes)).map (prep p.outIdx) =
+      t.rows.map (fun r => prep p.outIdx (fieldsOf p.trimWs p.keepQuotes r)) := by
+    simp [Function.comp_def]
+  obtain ⟨df, hread, hex, hcl, hsk, hvc'⟩ := readCsvRecsFrom_faithful cfg hg o p.outIdx prior
+    (t.header.map (fieldsOf p.trimWs p.keepQuotes)) (t.rows.map (fieldsOf p.trimWs p.keepQuotes))
+    hcols hvc hinv (by simp [Table.rows])
+    (by
+      intro r hr k hko
+      have : ∃ l ∈ t.lines, r = fieldsOf p.trimWs p.keepQuotes l := by
+        cases hh' : t.header with
+        | none =>
+          simp only [hh', Option.map_none, Option.toList_none, List.nil_append, List.mem_map] at hr
+          obtain ⟨l, hl, rfl⟩ := hr
+          exact ⟨l, by simp [Table.lines, hl], rfl⟩
+        | some h =>
+          simp only [hh', Option.map_some, Option.toList_some, List.singleton_append, List.mem_cons, List.mem_map] at hr
+          rcases hr with rfl | ⟨l, hl, rfl⟩
+          · exact ⟨h, by simp [Table.lines, hh'], rfl⟩
+          · exact ⟨l, by simp [Table.lines, hl], rfl⟩
+      obtain ⟨l, hl, rfl⟩ := this
+      rw [hflen, hwf.rect l hl]
+      exact hk k hko)
+    (by
+      intro r hr
+      simp only [List.mem_map] at hr
+      obtain ⟨l, hl, rfl⟩ := hr
+      exact hty.rows l hl)
+    (by rw [hrows']; exact hty.cls)
+  rw [hrows'] at hex hcl
+  have hrx : ∀ r' ∈ t.rows.map (fun r => prep p.outIdx (fieldsOf p.trimWs p.keepQuotes r)),
+      RowOKx o (prior.cols.map (·.dom)) r' := by
+    intro r' hr'
+    simp only [List.mem_map] at hr'
+    obtain ⟨r, hr, rfl⟩ := hr'
+    exact rowOK_x o _ _ (hty.rows r hr)
+  have hrok : ∀ r' ∈ t.rows.map (fun r => prep p.outIdx (fieldsOf p.trimWs p.keepQuotes r)), r' ≠ [] := by
+    intro r' hr' hnil
+    have := hrx r' hr'
+    rw [hnil] at this
+    cases hD : prior.cols.map (·.dom) <;> simp [hD, RowOKx] at this
+  have hzip : ∀ pr ∈ t.rows.zip df.examples,
+      (prep p.outIdx (fieldsOf p.trimWs p.keepQuotes pr.1), pr.2) ∈
+        (t.rows.map (fun r => prep p.outIdx (fieldsOf p.trimWs p.keepQuotes r))).zip df.examples := by
+    intro pr hpr
+    rw [List.zip_map_left]
+    exact List.mem_map.2 ⟨pr, hpr, rfl⟩
+  have hisSome : (t.header.map (fieldsOf p.trimWs p.keepQuotes)).isSome = t.header.isSome := by cases t.header <;> rfl
+  -- the class map after the import
+  have hcm : ClassInv df.classes ∧ Extends prior.classes df.classes := by
+    rcases hty.cls with ⟨hr, _⟩ | ⟨hc, _⟩
+    · rw [hcl, specRows_regr o _ _ _ hr]; exact ⟨hinv, Extends.refl _⟩
+    · obtain ⟨h1, h2, _⟩ := specRows_classif o _ _ prior.classes hinv hc
+      rw [hcl]; exact ⟨h1, h2⟩
+  refine ⟨df, ?_, ?_, ?_, ?_, ?_, hcm.2, ?_, hsk, hvc', hcm.1⟩
+  · unfold readCsvFrom resolveDialect
+    simp only [hh, Option.isNone_some, hd0, Bool.false_or, decide_false, Bool.false_eq_true, if_false,
+      Option.getD_some]
+    rw [hd, hrecs, hlines, ← hisSome]
+    exact hread
+  · rw [hex, (specRows_inputs o _ _ prior.classes hrx).2]
+    simp
+  · intro pr hpr
+    exact specRows_zip_inputs o _ _ prior.classes hrok _ (by rw [← hex]; exact hzip pr hpr)
+  · intro hr pr hpr
+    exact specRows_zip_regr o _ _ prior.classes hrok hr _ (by rw [← hex]; exact hzip pr hpr)
+  · intro hc pr hpr
+    obtain ⟨id, h1, h2⟩ := specRows_zip_classif o _ _ prior.classes hrok hinv hc _ (by rw [← hex]; exact hzip pr hpr)
+    rw [← hcl] at h2
+    exact ⟨id, h1, lookup_of_mem _ hcm.1 _ _ h2, className_of_mem _ hcm.1 _ _ h2⟩
+  · intro l i hl
+    have := lookup_extends _ _ hcm.1 hcm.2 l i hl
+    exact ⟨this, class_name_of_lookup _ hcm.1 l i this⟩
+
+/-- **rows_faithful_xrff_append.**  `read_xrff` (code after the fix) into a dataframe in ANY state: the
+    columns are those of the header of the document, whatever columns the object had; the examples are
+    exactly the instances of the document (those the hook returns), in order – none of an earlier import
+    is left –; the class map is the old one continued. -/
+theorem rows_faithful_xrff_append (cfg : Cfg) (hg : cfg.guards = true) (o : NumOracle F) (hook : Hook)
+    (prior : DF F) (hinv : ClassInv prior.classes) (h : XHeader) (hwf : h.WF) (insts : List (List Str))
+    (hrows : ∀ r ∈ insts.filterMap hook, h.k < r.length ∧ RowOKx o (h.cols.map (·.dom)) (rot r h.k))
+    (hcls : (Regr o (h.cols.map (·.dom)) ((insts.filterMap hook).map (fun r => rot r h.k)) ∧ prior.classes = []) ∨
+            (Classif o (h.cols.map (·.dom)) ((insts.filterMap hook).map (fun r => rot r h.k)) ∧
+             (specRows o (h.cols.map (·.dom)) prior.classes ((insts.filterMap hook).map (fun r => rot r h.k))).1.length ≠ 1)) :
+    ∃ df, readXrffHFrom cfg o hook prior (.doc h.attrs (some insts)) = .ok (df, (insts.filterMap hook).length) ∧
+      df.examples.length = (insts.filterMap hook).length ∧
+      (∀ pr ∈ (insts.filterMap hook).zip df.examples,
+        pr.2.input = inputVals o (h.cols.map (·.dom)).tail (rot pr.1 h.k).tail) ∧
+      (Regr o (h.cols.map (·.dom)) ((insts.filterMap hook).map (fun r => rot r h.k)) →
+        ∀ pr ∈ (insts.filterMap hook).zip df.examples,
+          pr.2.output = if outDom (h.cols.map (·.dom)) = .void then .void
+            else cellVal o (outDom (h.cols.map (·.dom))) ((rot pr.1 h.k).headD [])) ∧
+      (Classif o (h.cols.map (·.dom)) ((insts.filterMap hook).map (fun r => rot r h.k)) →
+        ∀ pr ∈ (insts.filterMap hook).zip df.examples, ∃ id : Nat,
+          pr.2.output = .int id ∧
+          lookup df.classes (trim ((rot pr.1 h.k).headD [])) = some id ∧
+          className df.classes id = trim ((rot pr.1 h.k).headD [])) ∧
+      Extends prior.classes df.classes ∧
+      (∀ l i, lookup prior.classes l = some i → lookup df.classes l = some i ∧ className df.classes i = l) ∧
+      skel df.cols = skel h.cols ∧ VoidClean df.cols ∧ ClassInv df.classes := by
+  obtain ⟨df, hread, hex, hcl, hsk, hvc'⟩ := readXrffHFrom_faithful cfg hg o hook prior hinv h hwf insts hrows hcls
+  have hrx : ∀ r' ∈ (insts.filterMap hook).map (fun r => rot r h.k), RowOKx o (h.cols.map (·.dom)) r' := by
+    intro r' hr'
+    simp only [List.mem_map] at hr'
+    obtain ⟨r, hr, rfl⟩ := hr'
+    exact (hrows r hr).2
+  have hrok : ∀ r' ∈ (insts.filterMap hook).map (fun r => rot r h.k), r' ≠ [] := by
+    intro r' hr' hnil
+    have := hrx r' hr'
+    rw [hnil] at this
+    cases hD : h.cols.map (·.dom) <;> simp [hD, RowOKx] at this
+  have hzip : ∀ pr ∈ (insts.filterMap hook).zip df.examples,
+      (rot pr.1 h.k, pr.2) ∈ ((insts.filterMap hook).map (fun r => rot r h.k)).zip df.examples := by
+    intro pr hpr
+    rw [List.zip_map_left]
+    exact List.mem_map.2 ⟨pr, hpr, rfl⟩
+  have hcm : ClassInv df.classes ∧ Extends prior.classes df.classes := by
+    rcases hcls with ⟨hr, _⟩ | ⟨hc, _⟩
+    · rw [hcl, specRows_regr o _ _ _ hr]; exact ⟨hinv, Extends.refl _⟩
+    · obtain ⟨h1, h2, _⟩ := specRows_classif o _ _ prior.classes hinv hc
+      rw [hcl]; exact ⟨h1, h2⟩
+  refine ⟨df, hread, ?_, ?_, ?_, ?_, hcm.2, ?_, hsk, hvc', hcm.1⟩
+  · rw [hex, (specRows_inputs o _ _ prior.classes hrx).2]; simp
+  · intro pr hpr
+    exact specRows_zip_inputs o _ _ prior.classes hrok _ (by rw [← hex]; exact hzip pr hpr)
+  · intro hr pr hpr
+    exact specRows_zip_regr o _ _ prior.classes hrok hr _ (by rw [← hex]; exact hzip pr hpr)
+  · intro hc pr hpr
+    obtain ⟨id, h1, h2⟩ := specRows_zip_classif o _ _ prior.classes hrok hinv hc _ (by rw [← hex]; exact hzip pr hpr)
+    rw [← hcl] at h2
+    exact ⟨id, h1, lookup_of_mem _ hcm.1 _ _ h2, className_of_mem _ hcm.1 _ _ h2⟩
+  · intro l i hl
+    have := lookup_extends _ _ hcm.1 hcm.2 l i hl
+    exact ⟨this, class_name_of_lookup _ hcm.1 l i this⟩
+
+/-- **class_map_continued.**  For EVERY history – any sequence of `read_csv` / `read_xrff` / `read` /
+    `clear` calls on one object, any bytes, parameters and hooks, well-formed or not – in which the calls
+    succeed: the class map of the object is the initial one continued (a label keeps the id it has, so
+    equal labels of different tables get equal ids), ids stay the positions and labels stay distinct
+    (distinct labels of different tables get distinct ids), names stay recoverable from ids. -/
+theorem class_map_continued (cfg : Cfg) (o : NumOracle F) (ops : List HOp) (prior df : DF F)
+    (hinv : ClassInv prior.classes) (h : finalHist cfg o prior ops = .ok df) :
+    ClassInv df.classes ∧ Extends prior.classes df.classes ∧
+    (∀ l i, lookup prior.classes l = some i → lookup df.classes l = some i ∧ className df.classes i = l) ∧
+    (∀ l1 l2 i, lookup df.classes l1 = some i → lookup df.classes l2 = some i → l1 = l2) := by
+  obtain ⟨h1, h2⟩ := finalHist_cls cfg o ops prior df h
+  have hi := h1 hinv
+  refine ⟨hi, h2, ?_, fun l1 l2 i => encode_inj df.classes hi l1 l2 i⟩
+  intro l i hl
+  have := lookup_extends _ _ hi h2 l i hl
+  exact ⟨this, class_name_of_lookup _ hi l i this⟩
+
+/-- **xrff_replaces_columns.**  After the fix `read_xrff` does not look at the columns or the examples the
+    object had: only the class map of the prior state matters. -/
+theorem xrff_replaces_columns (cfg : Cfg) (hg : cfg.guards = true) (o : NumOracle F) (hook : Hook) (prior : DF F)
+    (doc : XDoc) :
+    readXrffHFrom cfg o hook prior doc = readXrffHFrom cfg o hook ({ classes := prior.classes } : DF F) doc :=
+  readXrffHFrom_classes cfg hg o hook prior doc
+
+/-- **vars_survive_reimport.**  The variables `setup_terminals` made for the columns of the object keep
+    reading the right column of the examples of a later import (same hypotheses as `rows_faithful_append`):
+    there are as many variables as inputs in every new example and variable `j` evaluates to input `j`,
+    the value of the `j`-th column with a domain. -/
+theorem vars_survive_reimport (cfg : Cfg) (hg : cfg.guards = true) (o : NumOracle F) (d : Char) (eol : Str)
+    (t : Table) (p : Params) (prior : DF F) (strong : Bool) (vars : List VarSym)
+    (hd : p.delim = d) (hh : p.header = some t.header.isSome) (hf : p.hook = some)
+    (hwf : WellFormed d eol t) (hk : ∀ k, p.outIdx = some k → k < t.row0.length)
+    (hcols : prior.cols ≠ []) (hvc : VoidClean prior.cols) (hinv : ClassInv prior.classes)
+    (hty : TypedFrom o p.outIdx p.trimWs p.keepQuotes (prior.cols.map (·.dom)) prior.classes t)
+    (hvars : setupTerminals { guards := true } strong prior.cols = .ok vars) :
+    ∃ df, readCsvFrom cfg o p prior (t.render d eol) = .ok df ∧
+      ∀ e ∈ df.examples, e.input.length = vars.length ∧
+        ∀ j (hj : j < vars.length) (hi : j < e.input.length), evalVar vars[j] e = .ok e.input[j] := by
+  obtain ⟨df, hread, hlen, hin, _⟩ := rows_faithful_append cfg hg o d eol t p prior hd hh hf hwf hk hcols hvc hinv hty
+  refine ⟨df, hread, ?_⟩
+  intro e he
+  -- the example is paired with a row of the table
+  obtain ⟨i, hi, rfl⟩ := List.mem_iff_getElem.1 he
+  have hir : i < t.rows.length := by omega
+  have hmem : (t.rows[i], df.examples[i]) ∈ t.rows.zip df.examples := by
+    rw [List.mem_iff_getElem]
+    exact ⟨i, by simp [List.length_zip]; omega, by simp⟩
+  have hinp := hin _ hmem
+  have hrow := hty.rows t.rows[i] (List.getElem_mem hir)
+  have hio : InputsOK o ((prior.cols.map (·.dom)).tail) (prep p.outIdx (fieldsOf p.trimWs p.keepQuotes t.rows[i])).tail := by
+    cases hD : prior.cols.map (·.dom) with
+    | nil => rw [hD] at hrow; simp [RowOK] at hrow
+    | cons d0 ds =>
+      cases hr : prep p.outIdx (fieldsOf p.trimWs p.keepQuotes t.rows[i]) with
+      | nil => rw [hD, hr] at hrow; simp [RowOK] at hrow
+      | cons v vs => rw [hD, hr] at hrow; exact hrow.2.1
+  have htail : (prior.cols.map (·.dom)).tail = prior.cols.tail.map (·.dom) := by cases prior.cols <;> rfl
+  rw [htail] at hio hinp
+  obtain ⟨hb, _, hl⟩ := var_binding { guards := true } strong prior.cols vars df.examples[i] hvars
+  refine ⟨?_, fun j hj hi' => (hb j hj).2 hi'⟩
+  rw [hinp, inputVals_length o _ _ hio, hl rfl]
 
 /-! ## 6. the hypotheses can be met -/
 
@@ -912,6 +1190,30 @@ example : Unambiguous digitOracle ',' (some ["x".toList, "y".toList])
     rcases hc with rfl | rfl <;>
       simp [HeadCell, PlainCell, preferred, isBlank, isSpace, isNumber, trim, digitOracle] <;> decide
 
+/-- `"x","y" / "10","2" / "3","456"` (every cell quoted, lower-case names, numbers of different widths) is an
+    unambiguous table in the sense of `sniff_agrees_quoted`, for an oracle that – like `strtod` – does not take
+    a text that starts with a quote for a number -/
+example : UnambiguousQ digitOracle ',' (some [("x".toList, true), ("y".toList, true)])
+    [[("10".toList, true), ("2".toList, true)], [("3".toList, true), ("456".toList, true)]] where
+  delim := by simp [preferred]
+  width := ⟨2, by omega, by intro r hr; simp at hr; rcases hr with rfl | rfl <;> rfl,
+    by intro h hh; simp at hh; subst hh; rfl⟩
+  two := by simp
+  data := by
+    intro r hr c hc
+    simp at hr
+    rcases hr with rfl | rfl <;> simp at hc <;> rcases hc with rfl | rfl <;>
+      simp [DataCell, PlainCell, preferred, isBlank, isSpace, isNumber, trim, digitOracle, isAlpha, isUpper, isLower] <;>
+      decide
+  head := by
+    intro h hh c hc
+    simp at hh
+    subst hh
+    simp at hc
+    rcases hc with rfl | rfl <;>
+      simp [seenQ, PlainCell, preferred, isBlank, isSpace, isNumber, trim, digitOracle] <;> decide
+  bare := by intro h; cases h
+
 /-- `2019;2020 / 1;2` (column names that are numbers: the sniffer votes "no header") meets the
     hypotheses of `explicit_header_sniffed_delimiter` -/
 example : readCsv {} digitOracle { header := some true } (renderPlain ';' [["2019".toList, "2020".toList], ["1".toList, "2".toList]]) =
@@ -945,5 +1247,124 @@ example : ∃ df : DF Nat, readXrff {} digitOracle (fun _ => true)
       simp [XHeader.k, XHeader.cols, colOf, colOfOut, fromWeka, rot, Classif, outDom, specRows, outVal, encode,
         lookup, isNumber, trim, isSpace, digitOracle])
   exact ⟨df, h⟩
+
+/-! ### histories -/
+
+/-- the state `toyTable` leaves: columns `name` (output) / `n`, classes `a,b` ↦ 0 and `c` ↦ 1, two examples -/
+def toyPrior : DF Nat :=
+  { cols := [{ name := "name".toList, dom := .dbl }, { name := "n".toList, dom := .dbl }],
+    classes := [("a,b".toList, 0), ("c".toList, 1)],
+    examples := [{ input := [.dbl 1], output := .int 0 }, { input := [.dbl 2], output := .int 1 }] }
+
+example : (readCsv {} digitOracle { delim := ',', header := some true } (toyTable.render ',' [])).toOption.map
+    (fun df => (df.cols, df.classes, df.examples)) = some (toyPrior.cols, toyPrior.classes, toyPrior.examples) := by
+  rfl
+
+/-- a second table of the same schema, `name,n / c,5 / "a,b",7 / d,9` (an old label first, a new one last) -/
+def toyTable2 : Table :=
+  { header := some [("name".toList, false), ("n".toList, false)],
+    row0 := [("c".toList, false), ("5".toList, false)],
+    rest := [[("a,b".toList, true), ("7".toList, false)], [("d".toList, false), ("9".toList, false)]] }
+
+/-- the hypotheses of `rows_faithful_append` / `vars_survive_reimport` are met by `toyTable2` read into the
+    state `toyTable` left: three examples (not five, not four), `c` and `a,b` keep the ids 1 and 0 -/
+example : ∃ df, readCsvFrom {} digitOracle { delim := ',', header := some true } toyPrior (toyTable2.render ',' []) = .ok df ∧
+    df.examples.length = 3 ∧ lookup df.classes "c".toList = some 1 ∧ lookup df.classes "a,b".toList = some 0 := by
+  have toy2_wf : WellFormed ',' [] toyTable2 :=
+    {
+      d0 := by decide
+      dq := by decide
+      dn := by decide
+      eol_ok := Or.inl rfl
+      rect := by intro l hl; simp [Table.lines, Table.rows, toyTable2] at hl; rcases hl with rfl | rfl | rfl | rfl <;> rfl
+      width := by simp [toyTable2]
+      clean := by
+        intro l hl p hp
+        simp [Table.lines, Table.rows, toyTable2] at hl
+        rcases hl with rfl | rfl | rfl | rfl <;> simp at hp <;> rcases hp with rfl | rfl <;>
+          (refine ⟨?_, ?_⟩ <;> simp [Clean, needsQuote, isSpace] <;> decide)
+      visible := by
+        intro l hl
+        simp [Table.lines, Table.rows, toyTable2] at hl
+        rcases hl with rfl | rfl | rfl | rfl <;> simp [renderLine, renderField, esc, isBlank, isSpace]
+    }
+  have toy2_typed : TypedFrom digitOracle (some 0) false false (toyPrior.cols.map (·.dom)) toyPrior.classes toyTable2 :=
+    {
+      rows := by
+        intro r hr
+        simp [Table.rows, toyTable2] at hr
+        rcases hr with rfl | rfl | rfl <;>
+          simp [toyPrior, fieldsOf, fieldOut, fieldSeen, prep, rot, RowOK, OutOK, InputsOK, CellOK, Stable, isNumber, trim,
+            isBlank, isSpace, digitOracle]
+      cls := by
+        right
+        simp [Table.rows, toyTable2, toyPrior, fieldsOf, fieldOut, fieldSeen, prep, rot, Classif, outDom, specRows, outVal,
+          encode, lookup, isNumber, trim, isSpace, digitOracle]
+    }
+  obtain ⟨df, h1, h2, _, _, _, _, h7, _⟩ := rows_faithful_append {} rfl digitOracle ',' [] toyTable2
+    { delim := ',', header := some true } toyPrior rfl rfl rfl toy2_wf (by intro k hk; cases hk; decide)
+    (by simp [toyPrior])
+    (by intro c hc; simp [toyPrior] at hc; rcases hc with rfl | rfl <;> simp)
+    (by constructor <;> decide) toy2_typed
+  exact ⟨df, h1, h2, (h7 _ _ (by rfl)).1, (h7 _ _ (by rfl)).1⟩
+
+example : ∃ vars, setupTerminals { guards := true } false toyPrior.cols = .ok vars := ⟨_, rfl⟩
+
+/-- a history (the second table, `clear()`, an XRFF document) on the object in state `toyPrior` succeeds:
+    `class_map_continued` applies to it -/
+example : ClassInv toyPrior.classes ∧
+    ∃ df, finalHist {} digitOracle toyPrior
+      [.csv { delim := ',', header := some true } (toyTable2.render ',' []), .clear,
+       .xrff some (.doc [⟨['x'], false, "numeric".toList, []⟩, ⟨['c'], true, "nominal".toList, []⟩]
+                        (some [[['1'], ['c']], [['2'], ['e']]]))] = .ok df :=
+  ⟨by constructor <;> decide, _, rfl⟩
+
+/-- the XRFF document of the last example read into the object in state `toyPrior` (its columns are not those
+    of the document) meets the hypotheses of `rows_faithful_xrff_append` -/
+example : ∃ df : DF Nat, readXrffHFrom {} digitOracle some toyPrior
+    (.doc [⟨['x'], false, "numeric".toList, []⟩, ⟨['c'], true, "nominal".toList, []⟩]
+          (some [[['1'], ['c']], [['2'], ['e']]])) = .ok (df, 2) := by
+  obtain ⟨df, h, _⟩ := rows_faithful_xrff_append {} rfl digitOracle some toyPrior (by constructor <;> decide)
+    (.explicit [⟨['x'], false, "numeric".toList, []⟩] ⟨['c'], true, "nominal".toList, []⟩ [])
+    (by simp [XHeader.WF])
+    [[['1'], ['c']], [['2'], ['e']]]
+    (by
+      intro r hr
+      simp at hr
+      rcases hr with rfl | rfl <;>
+        simp [XHeader.k, XHeader.cols, colOf, colOfOut, fromWeka, rot, RowOKx, OutOK, InputsOK, CellOK, isNumber,
+          trim, isSpace, digitOracle])
+    (by
+      right
+      simp [toyPrior, XHeader.k, XHeader.cols, colOf, colOfOut, fromWeka, rot, Classif, outDom, specRows, outVal, encode,
+        lookup, isNumber, trim, isSpace, digitOracle])
+  exact ⟨df, h⟩
+
+/-- the code as found (`guards := false`): `y,b,c / 1,,3` read a second time into the dataframe it left
+    (column `b` has no domain) – the header record goes through `set_domain`, the NAME `b` makes the column a
+    text column and the example gets two inputs; after the fix the column keeps having no domain -/
+theorem old_header_types_column :
+    (readCsvRecsFrom { guards := false } digitOracle (some 0) true
+        ({ cols := [{ name := ['y'], dom := .dbl }, { name := ['b'], dom := .void }, { name := ['c'], dom := .dbl }] } : DF Nat)
+        [[['y'], ['b'], ['c']], [['1'], [], ['3']]]).map (fun df => (df.cols.map (·.dom), df.examples.map (·.input.length))) =
+      .ok ([.dbl, .str, .dbl], [2]) ∧
+    (readCsvRecsFrom { guards := true } digitOracle (some 0) true
+        ({ cols := [{ name := ['y'], dom := .dbl }, { name := ['b'], dom := .void }, { name := ['c'], dom := .dbl }] } : DF Nat)
+        [[['y'], ['b'], ['c']], [['1'], [], ['3']]]).map (fun df => (df.cols.map (·.dom), df.examples.map (·.input.length))) =
+      .ok ([.dbl, .void, .dbl], [1]) := ⟨rfl, rfl⟩
+
+/-- the code as found: an XRFF document read into a dataframe that has two columns leaves four columns and
+    no example (every instance has the wrong number of values) and returns 0; after the fix two and two -/
+theorem old_xrff_appends_columns :
+    (readXrffHFrom { guards := false } digitOracle some
+        ({ cols := [{ name := ['c'], dom := .dbl }, { name := ['x'], dom := .dbl }] } : DF Nat)
+        (.doc [⟨['x'], false, "numeric".toList, []⟩, ⟨['c'], true, "nominal".toList, []⟩]
+              (some [[['1'], ['u']], [['2'], ['v']]]))).map
+      (fun r => (r.1.cols.length, r.1.examples.length, r.2)) = .ok (4, 0, 0) ∧
+    (readXrffHFrom { guards := true } digitOracle some
+        ({ cols := [{ name := ['c'], dom := .dbl }, { name := ['x'], dom := .dbl }] } : DF Nat)
+        (.doc [⟨['x'], false, "numeric".toList, []⟩, ⟨['c'], true, "nominal".toList, []⟩]
+              (some [[['1'], ['u']], [['2'], ['v']]]))).map
+      (fun r => (r.1.cols.length, r.1.examples.length, r.2)) = .ok (2, 2, 2) := ⟨rfl, rfl⟩
 
 end Vita.C09
